@@ -66,24 +66,28 @@ OPS.update({"T10": {"type": {"type": "array", "items": STR}, "hint": None},
 S12 = obj({"kind": {"type": "string", "enum": ["m", "n"]}, "w": INT}, ["kind"])
 OPS.update({"T12": {"type": S12, "hint": "Alpha"}, "T13": {"type": S12, "hint": "Beta"}})
 HINT_NAMES = {"T12": "Alpha", "T13": "Beta"}
+# members whose defaults go through the SHARED default helpers (default_bool, default_u64, default_i64): what one call registered must survive the next
+D8 = {"Alpha": obj({"flag": {"type": "boolean", "default": True}, "count": {"type": "integer", "default": 5}, "neg": {"type": "integer", "default": -3}})}
+D9 = {"Beta": obj({"on": {"type": "boolean", "default": True}, "n": {"type": "integer", "format": "uint32", "minimum": 1, "default": 7}})}
+OPS.update({"R8": {"refs": D8}, "R9": {"refs": D9}, "R89": {"refs": dict(D8, **D9)}, "T14": {"type": {"$ref": "#/definitions/Alpha"}, "hint": None}})
 OPS.update({"R7": {"refs": D7}, "R7n": {"refs": {"Node": D7["Node"]}}, "R7o": {"refs": {"Other": D7["Other"]}},
             "T9": {"type": obj({"n": {"$ref": "#/definitions/Node"}, "w": STR}), "hint": "Other"}})
 SUB6 = ["R1", "R3", "T1", "T3", "T4", "T5", "T10", "T11", "T12", "T13"]
-SUB_ORDER = ["R6", "R6r", "R6z", "R6a", "R2", "T1", "R7", "R7n", "R7o", "T9"]
+SUB_ORDER = ["R6", "R6r", "R6z", "R6a", "R2", "T1", "R7", "R7n", "R7o", "T9", "R8", "R9", "R89", "T14"]
 SUB_ROOTS = ["ROOT3", "T6", "ROOT2", "T1", "R2", "T7", "T8"]
-DEFINES = {"R7": {"Node", "Other"}, "R7n": {"Node"}, "R7o": {"Other"}, "R14": set(D1) | set(D4), "R6": set(D6), "R6r": set(D6), "R6z": {"Zest"}, "R6a": {"Apple"}, "R5": set(D5), "R1": set(D1), "R2": set(D2), "R3": set(D3), "R4": set(D4), "R12": set(D12), "ROOT1": set(D1) | {"Root1"}, "ROOT2": set(D2) | {"Root2"},
+DEFINES = {"R8": {"Alpha"}, "R9": {"Beta"}, "R89": {"Alpha", "Beta"}, "R7": {"Node", "Other"}, "R7n": {"Node"}, "R7o": {"Other"}, "R14": set(D1) | set(D4), "R6": set(D6), "R6r": set(D6), "R6z": {"Zest"}, "R6a": {"Apple"}, "R5": set(D5), "R1": set(D1), "R2": set(D2), "R3": set(D3), "R4": set(D4), "R12": set(D12), "ROOT1": set(D1) | {"Root1"}, "ROOT2": set(D2) | {"Root2"},
            "ROOT3": {"Root3"}}
 ROOT_TITLE = {"ROOT1": "Root1", "ROOT2": "Root2", "ROOT3": "Root3"}
 NEEDS_D1 = {"T4", "R5"}
 PROVIDES_D1 = {"R1", "R12", "ROOT1", "R14"}
 # pairs declared independent by the alphabet: disjoint definition names, no cross references, no coinciding inline names
-INDEPENDENT = {frozenset(p) for p in [("T12", "T13"), ("T12", "R3"), ("T13", "R3"), ("T12", "T10"), ("T12", "T1"),
+INDEPENDENT = {frozenset(p) for p in [("R8", "R9"), ("R8", "R2"), ("R9", "R2"), ("R8", "T1"), ("R9", "T1"), ("R8", "R6"), ("R9", "R7"), ("T12", "T13"), ("T12", "R3"), ("T13", "R3"), ("T12", "T10"), ("T12", "T1"),
                                       ("R1", "R2"), ("R1", "R3"), ("R2", "R3"), ("R3", "R4"), ("R2", "R4"), ("R3", "R12"),
                                       ("R3", "ROOT1"), ("R2", "T5"), ("R3", "T5"), ("R3", "T1"), ("R3", "T2"), ("R3", "T3") , ("R4", "T5"),
                                       ("R5", "R2"), ("R5", "R3"), ("R5", "ROOT2"), ("R5", "ROOT3"), ("R5", "T5"), ("R5", "T1"),
                                       ("ROOT1", "ROOT2"), ("ROOT1", "R2"), ("ROOT2", "R1"), ("ROOT2", "R3"), ("ROOT1", "ROOT3"), ("ROOT2", "ROOT3"),
                                       ("R1", "ROOT3"), ("R2", "ROOT3"), ("R3", "ROOT3"), ("R12", "ROOT3"), ("ROOT3", "T5"), ("ROOT3", "T1")]}
-TYPE_OPS = {"T1", "T2", "T3", "T4", "T5", "T6", "T7", "T8", "T9", "T10", "T11", "T12", "T13"}
+TYPE_OPS = {"T1", "T2", "T3", "T4", "T5", "T6", "T7", "T8", "T9", "T10", "T11", "T12", "T13", "T14"}
 
 
 def enabled(hist, op):
@@ -93,6 +97,8 @@ def enabled(hist, op):
         return False
     if op == "R6a" and not (set(hist) & {"R6z"}):
         return False   # Apple refers to Zest
+    if op == "T14" and not (set(hist) & {"R8", "R89"}):
+        return False   # refers to Alpha
     if op in ("R7o", "T9") and not (set(hist) & {"R7n", "R7"}):
         return False   # Other refers to Node
     return True
@@ -297,7 +303,7 @@ def execute(cases_, tier, seed):
                     res.violations.append(Violation(k, "I4-order-dependent", "%s vs %s: different definitions %s" % (list(h), list(sw), [d[:3] for d in diff[:3]]),
                                                     {"history": list(h), "key": k, "other": list(sw)}, expected="same set of definitions", observed=[list(d) for d in diff[:10]],
                                                     features={"len": len(h)}))
-        for whole, parts in (("R6", ("R6z", "R6a")), ("R6", ("R6r",)), ("R6r", ("R6z", "R6a")), ("R7", ("R7n", "R7o")), ("R7", ("R7n", "T9"))):
+        for whole, parts in (("R6", ("R6z", "R6a")), ("R6", ("R6r",)), ("R6r", ("R6z", "R6a")), ("R7", ("R7n", "R7o")), ("R7", ("R7n", "T9")), ("R89", ("R8", "R9")), ("R89", ("R9", "R8")), ("R8", ("R8", "T14"))):
             if len(h) >= 1 and h[-1] == whole:
                 sp = h[:-1] + parts
                 if sp in final_items:
